@@ -18,11 +18,21 @@ use serde_json::{Value, json};
 use std::cell::Cell;
 use std::sync::Arc;
 use surf_n_term::surface::{Surface, SurfaceMut, SurfaceMutView, SurfaceOwned, SurfaceOwnedView, SurfaceView, ViewBounds};
-use surf_n_term::{Color, Image, Position, RGBA, Size};
+use surf_n_term::render::CellKind;
+use surf_n_term::view::{BoxConstraint, Offscreen, ViewContext};
+use surf_n_term::{Cell as TCell, Color, Face, Image, Position, RGBA, Size};
 use verif_harness::{Cfg, r#gen::Rng, guarded, out::Out};
 
 /// value of a cell as seen by the oracle and the model
 type T = u32;
+
+/// positions and sizes are built from their public fields, not through the crate's constructors
+fn pos_at(row: usize, col: usize) -> Position {
+    Position { row, col }
+}
+fn size_of_hw(height: usize, width: usize) -> Size {
+    Size { height, width }
+}
 
 /// element types the surfaces are instantiated with; `id` is the value the cell carries
 trait Elem: Clone + Default + 'static {
@@ -34,42 +44,18 @@ trait Elem: Clone + Default + 'static {
     }
     /// identify cells by value, not by address (see `Addr::by_value`)
     const BY_VALUE: bool = false;
+    /// `Surface::hash` where the element type is hashable
+    fn hash_of<S: Surface<Item = Self>>(_s: &S) -> Option<u64> {
+        None
+    }
+    /// the accessor run on a concrete `Image` made of the last carrier (RGBA cells only)
+    fn image_end<'a>(s: DynRef<'a, Self>, _case: &Case) -> Result<Obs, DynRef<'a, Self>> {
+        Err(s)
+    }
     /// carry out one step of a chain through another `Surface` implementor of the crate, if there is one
     /// for this element type (`Image` for RGBA cells)
     fn image_step<'a>(s: DynRef<'a, Self>, _op: &Op, _variant: u8) -> Result<DynRef<'a, Self>, DynRef<'a, Self>> {
         Err(s)
-    }
-}
-/// RGBA cells: `Image` (src/image.rs) is a `Surface` implementor over them — `Image::new(view)`,
-/// `Image::from_parts`, `Image::crop` must denote the same windows as the views they are made from
-impl Elem for RGBA {
-    fn mk(id: T) -> Self {
-        let b = id.to_le_bytes();
-        RGBA::new(b[0], b[1], b[2], b[3])
-    }
-    fn id(&self) -> T {
-        T::from_le_bytes(self.to_rgba())
-    }
-    const BY_VALUE: bool = true;
-    fn image_step<'a>(s: DynRef<'a, Self>, op: &Op, variant: u8) -> Result<DynRef<'a, Self>, DynRef<'a, Self>> {
-        Ok(match (*op, variant % 5) {
-            (Op::View(r, c), 0) => Box::new(Image::new(s).crop(r, c)),
-            (Op::View(r, c), 1) => Box::new(Image::new(s.view_owned(r, c))),
-            (Op::View(r, c), 2) => Box::new(Image::new(s).view_owned(r, c)),
-            (Op::View(r, c), 3) => {
-                let img = Image::new(s.view_owned(r, c));
-                Box::new(Image::from_parts(Arc::from(img.data()), img.shape()))
-            }
-            (Op::View(r, c), _) => Box::new(Image::new(Image::new(s).view(r, c))),
-            (Op::Transpose, 0) => Box::new(Image::new(s.transpose())),
-            (Op::Transpose, 1) => Box::new(Image::new(s).transpose()),
-            (Op::Transpose, 2) => Box::new(Image::new(Image::new(s).transpose())),
-            (Op::Transpose, 3) => {
-                let img = Image::new(s.transpose());
-                Box::new(Image::from_parts(Arc::from(img.data()), img.shape()).crop(.., ..))
-            }
-            (Op::Transpose, _) => Box::new(Arc::new(Image::new(s)).transpose()),
-        })
     }
 }
 impl Elem for u32 {
@@ -78,6 +64,9 @@ impl Elem for u32 {
     }
     fn id(&self) -> T {
         *self
+    }
+    fn hash_of<S: Surface<Item = Self>>(s: &S) -> Option<u64> {
+        Some(s.hash())
     }
 }
 /// size 5, alignment 1: element addresses are not multiples of a power of two
@@ -129,7 +118,7 @@ impl Elem for Counted {
         LIVE.with(|l| l.get())
     }
 }
-const ELEMS: [&str; 5] = ["u32", "odd5", "counted", "zst", "rgba"];
+const ELEMS: [&str; 6] = ["u32", "odd5", "counted", "zst", "rgba", "cell"];
 
 const TYPES: [&str; 10] = ["i8", "u8", "i16", "u16", "i32", "u32", "i64", "u64", "isize", "usize"];
 
@@ -245,6 +234,9 @@ struct Case {
     steps: Vec<Step>,
     /// 0: root moved into the chain, 1: chain built on `&mut root` / `&root`; +2: immutable accessor on mutable carriers
     root_kind: u8,
+    /// type of the receiver of the accessor at the end of a type-erased chain (Box<dyn>, &dyn through the
+    /// vtable, &mut Box / Arc<Box>, Image) and of the root of an empty chain (>= 2: the concrete SurfaceOwned)
+    end_kind: u8,
     /// accessor: grid gridmut iter itermut nth nthmut fill clear fillwith insert inserthuge insertwrap map toowned set
     acc: String,
     args: Vec<usize>,
@@ -268,7 +260,7 @@ impl Case {
     fn to_json(&self) -> Value {
         json!({
             "h": self.h, "w": self.w, "extra": self.extra, "elem": ELEMS[self.elem as usize],
-            "root_kind": self.root_kind, "acc": self.acc, "args": self.args, "items": self.items,
+            "root_kind": self.root_kind, "end_kind": self.end_kind, "acc": self.acc, "args": self.args, "items": self.items,
             "chain": self.chain_token(),
             "steps": self.steps.iter().map(|s| match s.op {
                 Op::Transpose => json!({"op": "T", "kind": s.kind}),
@@ -294,6 +286,7 @@ impl Case {
             elem: ELEMS.iter().position(|e| Some(*e) == v["elem"].as_str()).unwrap_or(0) as u8,
             steps,
             root_kind: v["root_kind"].as_u64()? as u8,
+            end_kind: v["end_kind"].as_u64().unwrap_or(0) as u8,
             acc: v["acc"].as_str()?.to_string(),
             args: v["args"].as_array()?.iter().filter_map(|x| x.as_u64().map(|x| x as usize)).collect(),
             items: v["items"].as_array()?.iter().filter_map(|x| x.as_u64().map(|x| x as T)).collect(),
@@ -394,10 +387,10 @@ macro_rules! conc_ov_mut {
         fn $name<'a, E: Elem, S: SurfaceMut<Item = E> + 'a>(
             mut s: SurfaceOwnedView<S>,
             steps: &[Step],
-            k: &mut dyn for<'b> FnMut(DynMut<'b, E>),
+            k: &mut Sink<'_>,
         ) {
             let Some((step, rest)) = steps.split_first() else {
-                return k(Box::new(s));
+                return end_ov_mut(s, k);
             };
             if step.kind < CONCRETE - 8 {
                 return chain_mut(Box::new(s), steps, k);
@@ -416,16 +409,34 @@ macro_rules! conc_ov_mut {
         }
     };
 }
-conc_ov_mut!(conc_ov4, conc_ov3);
+// the number of distinct receiver types (and with it the build time) doubles with every level that may wrap
+// through `&mut`: only the first level does
 conc_ov_mut!(conc_ov3, conc_ov2);
-conc_ov_mut!(conc_ov2, conc_ov1);
-fn conc_ov1<'a, E: Elem, S: SurfaceMut<Item = E> + 'a>(s: SurfaceOwnedView<S>, steps: &[Step], k: &mut dyn for<'b> FnMut(DynMut<'b, E>)) {
+fn conc_ov2<'a, E: Elem, S: SurfaceMut<Item = E> + 'a>(mut s: SurfaceOwnedView<S>, steps: &[Step], k: &mut Sink<'_>) {
+    let Some((step, rest)) = steps.split_first() else {
+        return end_ov_mut(s, k);
+    };
+    if step.kind < CONCRETE - 8 {
+        return chain_mut(Box::new(s), steps, k);
+    }
+    match step.op {
+        Op::View(r, c) => match step.kind % 4 {
+            2 => conc_mv(s.view_mut(r, c), rest, k),
+            _ => conc_ov1(s.view_owned(r, c), rest, k),
+        },
+        Op::Transpose => conc_ov1(s.transpose(), rest, k),
+    }
+}
+fn conc_ov1<'a, E: Elem, S: SurfaceMut<Item = E> + 'a>(s: SurfaceOwnedView<S>, steps: &[Step], k: &mut Sink<'_>) {
+    if steps.is_empty() {
+        return end_ov_mut(s, k);
+    }
     chain_mut(Box::new(s), steps, k)
 }
 
-fn conc_mv<'a, E: Elem>(mut s: SurfaceMutView<'a, E>, steps: &[Step], k: &mut dyn for<'b> FnMut(DynMut<'b, E>)) {
+fn conc_mv<'a, E: Elem>(mut s: SurfaceMutView<'a, E>, steps: &[Step], k: &mut Sink<'_>) {
     let Some((step, rest)) = steps.split_first() else {
-        return k(Box::new(s));
+        return end_mv(s, k);
     };
     if step.kind < CONCRETE - 8 {
         return chain_mut(Box::new(s), steps, k);
@@ -444,37 +455,39 @@ fn conc_mv<'a, E: Elem>(mut s: SurfaceMutView<'a, E>, steps: &[Step], k: &mut dy
 }
 
 /// the first step on the concrete root (`SurfaceOwned<E>` by value)
-fn start_mut_owned<E: Elem>(mut root: SurfaceOwned<E>, steps: &[Step], k: &mut dyn for<'b> FnMut(DynMut<'b, E>)) {
+fn start_mut_owned<E: Elem>(mut root: SurfaceOwned<E>, steps: &[Step], k: &mut Sink<'_>) {
     match steps.split_first() {
         Some((step, rest)) if step.kind >= CONCRETE => match step.op {
             Op::View(r, c) => match step.kind % 2 {
-                0 => conc_ov4(root.view_owned(r, c), rest, k),
+                0 => conc_ov3(root.view_owned(r, c), rest, k),
                 _ => conc_mv(root.view_mut(r, c), rest, k),
             },
-            Op::Transpose => conc_ov4(root.transpose(), rest, k),
+            Op::Transpose => conc_ov3(root.transpose(), rest, k),
         },
+        None if k.case.end_kind >= 2 => end_owned_mut(root, k),
         _ => chain_mut(Box::new(root), steps, k),
     }
 }
 
 /// the first step on `&mut SurfaceOwned<E>`
-fn start_mut_borrowed<E: Elem>(root: &mut SurfaceOwned<E>, steps: &[Step], k: &mut dyn for<'b> FnMut(DynMut<'b, E>)) {
+fn start_mut_borrowed<E: Elem>(root: &mut SurfaceOwned<E>, steps: &[Step], k: &mut Sink<'_>) {
     match steps.split_first() {
         Some((step, rest)) if step.kind >= CONCRETE => match step.op {
             Op::View(r, c) => match step.kind % 3 {
-                0 => conc_ov4(root.view_owned(r, c), rest, k),
+                0 => conc_ov3(root.view_owned(r, c), rest, k),
                 1 => conc_mv(root.view_mut(r, c), rest, k),
                 _ => conc_mv(root.as_mut().view_mut(r, c), rest, k),
             },
-            Op::Transpose => conc_ov4(root.transpose(), rest, k),
+            Op::Transpose => conc_ov3(root.transpose(), rest, k),
         },
+        None if k.case.end_kind >= 2 => end_owned_borrowed_mut(root, k),
         _ => chain_mut(Box::new(root), steps, k),
     }
 }
 
-fn chain_mut<'a, E: Elem>(mut s: DynMut<'a, E>, steps: &[Step], k: &mut dyn for<'b> FnMut(DynMut<'b, E>)) {
+fn chain_mut<'a, E: Elem>(mut s: DynMut<'a, E>, steps: &[Step], k: &mut Sink<'_>) {
     let Some((step, rest)) = steps.split_first() else {
-        return k(s);
+        return end_box_mut(s, k);
     };
     if step.kind >= CONCRETE + 12 {
         return match step.op {
@@ -517,10 +530,10 @@ macro_rules! conc_ov_ref {
         fn $name<'a, E: Elem, S: Surface<Item = E> + 'a>(
             s: SurfaceOwnedView<S>,
             steps: &[Step],
-            k: &mut dyn for<'b> FnMut(DynRef<'b, E>),
+            k: &mut Sink<'_>,
         ) {
             let Some((step, rest)) = steps.split_first() else {
-                return k(Box::new(s));
+                return end_ov_ref(s, k);
             };
             if step.kind < CONCRETE - 8 {
                 return chain_ref(Box::new(s), steps, k);
@@ -539,16 +552,32 @@ macro_rules! conc_ov_ref {
         }
     };
 }
-conc_ov_ref!(rconc_ov4, rconc_ov3);
 conc_ov_ref!(rconc_ov3, rconc_ov2);
-conc_ov_ref!(rconc_ov2, rconc_ov1);
-fn rconc_ov1<'a, E: Elem, S: Surface<Item = E> + 'a>(s: SurfaceOwnedView<S>, steps: &[Step], k: &mut dyn for<'b> FnMut(DynRef<'b, E>)) {
+fn rconc_ov2<'a, E: Elem, S: Surface<Item = E> + 'a>(s: SurfaceOwnedView<S>, steps: &[Step], k: &mut Sink<'_>) {
+    let Some((step, rest)) = steps.split_first() else {
+        return end_ov_ref(s, k);
+    };
+    if step.kind < CONCRETE - 8 {
+        return chain_ref(Box::new(s), steps, k);
+    }
+    match step.op {
+        Op::View(r, c) => match step.kind % 4 {
+            2 => conc_rv(s.view(r, c), rest, k),
+            _ => rconc_ov1(s.view_owned(r, c), rest, k),
+        },
+        Op::Transpose => rconc_ov1(s.transpose(), rest, k),
+    }
+}
+fn rconc_ov1<'a, E: Elem, S: Surface<Item = E> + 'a>(s: SurfaceOwnedView<S>, steps: &[Step], k: &mut Sink<'_>) {
+    if steps.is_empty() {
+        return end_ov_ref(s, k);
+    }
     chain_ref(Box::new(s), steps, k)
 }
 
-fn conc_rv<'a, E: Elem>(s: SurfaceView<'a, E>, steps: &[Step], k: &mut dyn for<'b> FnMut(DynRef<'b, E>)) {
+fn conc_rv<'a, E: Elem>(s: SurfaceView<'a, E>, steps: &[Step], k: &mut Sink<'_>) {
     let Some((step, rest)) = steps.split_first() else {
-        return k(Box::new(s));
+        return end_rv(s, k);
     };
     if step.kind < CONCRETE - 8 {
         return chain_ref(Box::new(s), steps, k);
@@ -566,36 +595,38 @@ fn conc_rv<'a, E: Elem>(s: SurfaceView<'a, E>, steps: &[Step], k: &mut dyn for<'
     }
 }
 
-fn start_ref_owned<E: Elem>(root: SurfaceOwned<E>, steps: &[Step], k: &mut dyn for<'b> FnMut(DynRef<'b, E>)) {
+fn start_ref_owned<E: Elem>(root: SurfaceOwned<E>, steps: &[Step], k: &mut Sink<'_>) {
     match steps.split_first() {
         Some((step, rest)) if step.kind >= CONCRETE && step.kind < 40 => match step.op {
             Op::View(r, c) => match step.kind % 2 {
-                0 => rconc_ov4(root.view_owned(r, c), rest, k),
+                0 => rconc_ov3(root.view_owned(r, c), rest, k),
                 _ => conc_rv(root.view(r, c), rest, k),
             },
-            Op::Transpose => rconc_ov4(root.transpose(), rest, k),
+            Op::Transpose => rconc_ov3(root.transpose(), rest, k),
         },
+        None if k.case.end_kind >= 2 => end_owned_ref(root, k),
         _ => chain_ref(Box::new(root), steps, k),
     }
 }
 
-fn start_ref_borrowed<E: Elem>(root: &SurfaceOwned<E>, steps: &[Step], k: &mut dyn for<'b> FnMut(DynRef<'b, E>)) {
+fn start_ref_borrowed<E: Elem>(root: &SurfaceOwned<E>, steps: &[Step], k: &mut Sink<'_>) {
     match steps.split_first() {
         Some((step, rest)) if step.kind >= CONCRETE && step.kind < 40 => match step.op {
             Op::View(r, c) => match step.kind % 3 {
-                0 => rconc_ov4(root.view_owned(r, c), rest, k),
+                0 => rconc_ov3(root.view_owned(r, c), rest, k),
                 1 => conc_rv(root.view(r, c), rest, k),
                 _ => conc_rv(root.as_ref().view(r, c), rest, k),
             },
-            Op::Transpose => rconc_ov4(root.transpose(), rest, k),
+            Op::Transpose => rconc_ov3(root.transpose(), rest, k),
         },
+        None if k.case.end_kind >= 2 => end_owned_borrowed_ref(root, k),
         _ => chain_ref(Box::new(root), steps, k),
     }
 }
 
-fn chain_ref<'a, E: Elem>(s: DynRef<'a, E>, steps: &[Step], k: &mut dyn for<'b> FnMut(DynRef<'b, E>)) {
+fn chain_ref<'a, E: Elem>(s: DynRef<'a, E>, steps: &[Step], k: &mut Sink<'_>) {
     let Some((step, rest)) = steps.split_first() else {
-        return k(s);
+        return end_box_ref(s, k);
     };
     // another Surface implementor of the crate as carrier (Image, RGBA cells only)
     let s = if step.kind >= 40 {
@@ -639,9 +670,9 @@ fn chain_ref<'a, E: Elem>(s: DynRef<'a, E>, steps: &[Step], k: &mut dyn for<'b> 
 /// `new_with` root, or a `from_vec` root with `extra` cells behind the matrix; `data[i] = i + 1`
 fn new_root<E: Elem>(h: usize, w: usize, extra: usize) -> SurfaceOwned<E> {
     if extra == 0 {
-        SurfaceOwned::new_with(Size::new(h, w), |pos| E::mk((pos.row * w + pos.col + 1) as T))
+        SurfaceOwned::new_with(size_of_hw(h, w), |pos| E::mk((pos.row * w + pos.col + 1) as T))
     } else {
-        SurfaceOwned::from_vec(Size::new(h, w), (0..h * w + extra).map(|i| E::mk((i + 1) as T)).collect())
+        SurfaceOwned::from_vec(size_of_hw(h, w), (0..h * w + extra).map(|i| E::mk((i + 1) as T)).collect())
     }
 }
 
@@ -675,6 +706,8 @@ struct Obs {
     /// result data of map / to_owned_surf with its size; old value returned by set
     mapped: Vec<T>,
     mapped_size: (usize, usize),
+    /// `Surface::hash` of the carrier (element types with a Hash impl in the harness)
+    hashv: Option<u64>,
     /// whole backing slice after the operation
     canvas: Vec<T>,
     /// the carrier may own a copy of the cells (Image): its data() is not the parent, a read cannot have
@@ -714,37 +747,50 @@ fn ids<E: Elem>(data: &[E]) -> Vec<T> {
     data.iter().map(|x| x.id()).collect()
 }
 
-fn observe_ref<E: Elem>(s: DynRef<'_, E>, case: &Case) -> Obs {
-    let mut obs = Obs { height: s.height(), width: s.width(), is_empty: s.is_empty(), ..Obs::default() };
-    let addr = Addr { by_value: E::BY_VALUE, ..Addr::of(s.data()) };
-    match case.acc.as_str() {
+/// the accessor runs are macros, not generic functions: they are expanded once per RECEIVER TYPE (`Box<dyn _>`,
+/// `&mut dyn _`, `SurfaceOwned`, `SurfaceOwnedView<_>`, `SurfaceMutView`, `SurfaceView`, `Image`, …) so that every
+/// accessor is a method call on that type exactly as a user writes it: an implementor's override of a default
+/// trait method, or an inherent method shadowing it, is what runs
+macro_rules! observe_ref_body {
+    ($s:ident, $case:ident) => {{
+    let mut obs = Obs { height: $s.height(), width: $s.width(), is_empty: $s.is_empty(), ..Obs::default() };
+    {
+        // the helpers that report the extents must agree with the raw fields of shape()
+        let sh = $s.shape();
+        let sz = $s.size();
+        if (sh.height, sh.width) != (obs.height, obs.width) || (sz.height, sz.width) != (obs.height, obs.width) {
+            obs.bad = Some(format!("height()/width() = {}x{}, size() = {}x{}, shape() = {}x{}", obs.height, obs.width, sz.height, sz.width, sh.height, sh.width));
+        }
+    }
+    let addr = Addr { by_value: E::BY_VALUE, ..Addr::of($s.data()) };
+    match $case.acc.as_str() {
         "grid" => {
             for r in 0..obs.height + 2 {
                 for c in 0..obs.width + 2 {
-                    let g = s.get(Position::new(r, c)).map(|x| (x as *const E, x.id()));
+                    let g = $s.get(pos_at(r, c)).map(|x| (x as *const E, x.id()));
                     let g = g.map(|(p, v)| (addr.off(p, v, &mut obs), v));
                     obs.grid.push(g);
                 }
             }
         }
         "probe" => {
-            for rc in case.args.chunks(2) {
-                let g = s.get(Position::new(rc[0], rc[1])).map(|x| (x as *const E, x.id()));
+            for rc in $case.args.chunks(2) {
+                let g = $s.get(pos_at(rc[0], rc[1])).map(|x| (x as *const E, x.id()));
                 let g = g.map(|(p, v)| (addr.off(p, v, &mut obs), v));
                 obs.grid.push(g);
             }
         }
         "iter" => {
-            let refs: Vec<&E> = s.iter().collect();
+            let refs: Vec<&E> = $s.iter().collect();
             for x in refs {
                 let o = addr.off(x as *const E, x.id(), &mut obs);
                 obs.items.push(Some((o, x.id())));
             }
-            obs.positions = s.iter().with_position().map(|(p, _)| (p.row, p.col)).collect();
+            obs.positions = $s.iter().with_position().map(|(p, _)| (p.row, p.col)).collect();
         }
         "posnth" => {
-            let mut it = s.iter().with_position();
-            for &k in &case.args {
+            let mut it = $s.iter().with_position();
+            for &k in &$case.args {
                 let g = it.nth(k).map(|(p, x)| (p.row, p.col, x as *const E, x.id()));
                 let g = g.map(|(r, c, p, v)| (r, c, addr.off(p, v, &mut obs), v));
                 obs.pitems.push(g);
@@ -752,9 +798,9 @@ fn observe_ref<E: Elem>(s: DynRef<'_, E>, case: &Case) -> Obs {
         }
         "posadapt" => {
             // args: mode (1 skip(a), 2 step_by(b), 3 skip(a).step_by(b)), a, b
-            let (a, b) = (case.args[1], case.args[2]);
-            let it = s.iter().with_position();
-            let got: Vec<(Position, &E)> = match case.args[0] {
+            let (a, b) = ($case.args[1], $case.args[2]);
+            let it = $s.iter().with_position();
+            let got: Vec<(Position, &E)> = match $case.args[0] {
                 1 => it.skip(a).collect(),
                 2 => it.step_by(b).collect(),
                 _ => it.skip(a).step_by(b).collect(),
@@ -766,8 +812,8 @@ fn observe_ref<E: Elem>(s: DynRef<'_, E>, case: &Case) -> Obs {
             obs.pitems.push(None);
         }
         "nth" => {
-            let mut it = s.iter();
-            for &k in &case.args {
+            let mut it = $s.iter();
+            for &k in &$case.args {
                 let g = it.nth(k).map(|x| (x as *const E, x.id()));
                 let g = g.map(|(p, v)| (addr.off(p, v, &mut obs), v));
                 obs.items.push(g);
@@ -775,41 +821,49 @@ fn observe_ref<E: Elem>(s: DynRef<'_, E>, case: &Case) -> Obs {
         }
         "map" => {
             let mut calls = Vec::new();
-            let m = s.map(|pos, x| {
+            let m = (&$s).map(|pos, x| {
                 calls.push((pos.row, pos.col, x as *const E, x.id()));
                 E::mk(tf(pos.row, pos.col, x.id()))
             });
             obs.calls = calls.into_iter().map(|(r, c, p, v)| (r, c, addr.off(p, v, &mut obs))).collect();
-            obs.mapped_size = (m.height(), m.width());
-            obs.mapped = ids(&m.to_vec());
+            read_mapped(&m, &mut obs);
         }
         "toowned" => {
-            let m = s.to_owned_surf();
-            obs.mapped_size = (m.height(), m.width());
-            obs.mapped = ids(&m.to_vec());
+            let m = $s.to_owned_surf();
+            read_mapped(&m, &mut obs);
         }
+        "hash" => obs.hashv = E::hash_of(&$s),
         other => panic!("unknown accessor {other}"),
     }
-    obs.canvas = ids(s.data());
+    obs.canvas = ids($s.data());
     obs
+}};
 }
-
-fn observe_mut<E: Elem>(mut s: DynMut<'_, E>, case: &Case) -> Obs {
-    let mut obs = Obs { height: s.height(), width: s.width(), is_empty: s.is_empty(), ..Obs::default() };
-    let addr = Addr { by_value: E::BY_VALUE, ..Addr::of(s.data()) };
-    match case.acc.as_str() {
+macro_rules! observe_mut_body {
+    ($s:ident, $case:ident) => {{
+    let mut obs = Obs { height: $s.height(), width: $s.width(), is_empty: $s.is_empty(), ..Obs::default() };
+    {
+        // the helpers that report the extents must agree with the raw fields of shape()
+        let sh = $s.shape();
+        let sz = $s.size();
+        if (sh.height, sh.width) != (obs.height, obs.width) || (sz.height, sz.width) != (obs.height, obs.width) {
+            obs.bad = Some(format!("height()/width() = {}x{}, size() = {}x{}, shape() = {}x{}", obs.height, obs.width, sz.height, sz.width, sh.height, sh.width));
+        }
+    }
+    let addr = Addr { by_value: E::BY_VALUE, ..Addr::of($s.data()) };
+    match $case.acc.as_str() {
         "grid" => {
             for r in 0..obs.height + 2 {
                 for c in 0..obs.width + 2 {
-                    let g = s.get(Position::new(r, c)).map(|x| (x as *const E, x.id()));
+                    let g = $s.get(pos_at(r, c)).map(|x| (x as *const E, x.id()));
                     let g = g.map(|(p, v)| (addr.off(p, v, &mut obs), v));
                     obs.grid.push(g);
                 }
             }
         }
         "probemut" => {
-            for rc in case.args.chunks(2) {
-                let g = s.get_mut(Position::new(rc[0], rc[1])).map(|x| (x as *const E, x.id()));
+            for rc in $case.args.chunks(2) {
+                let g = $s.get_mut(pos_at(rc[0], rc[1])).map(|x| (x as *const E, x.id()));
                 let g = g.map(|(p, v)| (addr.off(p, v, &mut obs), v));
                 obs.grid.push(g);
             }
@@ -817,41 +871,41 @@ fn observe_mut<E: Elem>(mut s: DynMut<'_, E>, case: &Case) -> Obs {
         "gridmut" => {
             for r in 0..obs.height + 2 {
                 for c in 0..obs.width + 2 {
-                    let g = s.get_mut(Position::new(r, c)).map(|x| (x as *const E, x.id()));
+                    let g = $s.get_mut(pos_at(r, c)).map(|x| (x as *const E, x.id()));
                     let g = g.map(|(p, v)| (addr.off(p, v, &mut obs), v));
                     obs.grid.push(g);
                 }
             }
         }
         "probe" => {
-            for rc in case.args.chunks(2) {
-                let g = s.get(Position::new(rc[0], rc[1])).map(|x| (x as *const E, x.id()));
+            for rc in $case.args.chunks(2) {
+                let g = $s.get(pos_at(rc[0], rc[1])).map(|x| (x as *const E, x.id()));
                 let g = g.map(|(p, v)| (addr.off(p, v, &mut obs), v));
                 obs.grid.push(g);
             }
         }
         "iter" => {
-            let refs: Vec<&E> = s.iter().collect();
+            let refs: Vec<&E> = $s.iter().collect();
             for x in refs {
                 let o = addr.off(x as *const E, x.id(), &mut obs);
                 obs.items.push(Some((o, x.id())));
             }
-            obs.positions = s.iter().with_position().map(|(p, _)| (p.row, p.col)).collect();
+            obs.positions = $s.iter().with_position().map(|(p, _)| (p.row, p.col)).collect();
         }
         "itermut" => {
             // all `&mut` are alive at the same time, then each is written with its own value
-            let refs: Vec<&mut E> = s.iter_mut().collect();
+            let refs: Vec<&mut E> = $s.iter_mut().collect();
             for (k, x) in refs.into_iter().enumerate() {
                 let v = x.id();
                 *x = E::mk(5000 + k as T);
                 let o = addr.off(x as *const E, v, &mut obs);
                 obs.items.push(Some((o, v)));
             }
-            obs.positions = s.iter_mut().with_position().map(|(p, _)| (p.row, p.col)).collect();
+            obs.positions = $s.iter_mut().with_position().map(|(p, _)| (p.row, p.col)).collect();
         }
         "posnth" => {
-            let mut it = s.iter().with_position();
-            for &k in &case.args {
+            let mut it = $s.iter().with_position();
+            for &k in &$case.args {
                 let g = it.nth(k).map(|(p, x)| (p.row, p.col, x as *const E, x.id()));
                 let g = g.map(|(r, c, p, v)| (r, c, addr.off(p, v, &mut obs), v));
                 obs.pitems.push(g);
@@ -859,9 +913,9 @@ fn observe_mut<E: Elem>(mut s: DynMut<'_, E>, case: &Case) -> Obs {
         }
         "posadapt" => {
             // args: mode (1 skip(a), 2 step_by(b), 3 skip(a).step_by(b)), a, b
-            let (a, b) = (case.args[1], case.args[2]);
-            let it = s.iter().with_position();
-            let got: Vec<(Position, &E)> = match case.args[0] {
+            let (a, b) = ($case.args[1], $case.args[2]);
+            let it = $s.iter().with_position();
+            let got: Vec<(Position, &E)> = match $case.args[0] {
                 1 => it.skip(a).collect(),
                 2 => it.step_by(b).collect(),
                 _ => it.skip(a).step_by(b).collect(),
@@ -873,17 +927,17 @@ fn observe_mut<E: Elem>(mut s: DynMut<'_, E>, case: &Case) -> Obs {
             obs.pitems.push(None);
         }
         "nth" => {
-            let mut it = s.iter();
-            for &k in &case.args {
+            let mut it = $s.iter();
+            for &k in &$case.args {
                 let g = it.nth(k).map(|x| (x as *const E, x.id()));
                 let g = g.map(|(p, v)| (addr.off(p, v, &mut obs), v));
                 obs.items.push(g);
             }
         }
         "posnthmut" => {
-            let mut it = s.iter_mut().with_position();
+            let mut it = $s.iter_mut().with_position();
             let mut got: Vec<Option<(Position, &mut E)>> = Vec::new();
-            for &k in &case.args {
+            for &k in &$case.args {
                 got.push(it.nth(k));
             }
             for g in got {
@@ -899,9 +953,9 @@ fn observe_mut<E: Elem>(mut s: DynMut<'_, E>, case: &Case) -> Obs {
             }
         }
         "posadaptmut" => {
-            let (a, b) = (case.args[1], case.args[2]);
-            let it = s.iter_mut().with_position();
-            let got: Vec<(Position, &mut E)> = match case.args[0] {
+            let (a, b) = ($case.args[1], $case.args[2]);
+            let it = $s.iter_mut().with_position();
+            let got: Vec<(Position, &mut E)> = match $case.args[0] {
                 1 => it.skip(a).collect(),
                 2 => it.step_by(b).collect(),
                 _ => it.skip(a).step_by(b).collect(),
@@ -915,9 +969,9 @@ fn observe_mut<E: Elem>(mut s: DynMut<'_, E>, case: &Case) -> Obs {
             obs.pitems.push(None);
         }
         "nthmut" => {
-            let mut it = s.iter_mut();
+            let mut it = $s.iter_mut();
             let mut refs: Vec<Option<&mut E>> = Vec::new();
-            for &k in &case.args {
+            for &k in &$case.args {
                 refs.push(it.nth(k));
             }
             for (j, x) in refs.into_iter().enumerate() {
@@ -932,11 +986,11 @@ fn observe_mut<E: Elem>(mut s: DynMut<'_, E>, case: &Case) -> Obs {
                 }
             }
         }
-        "fill" => s.fill(E::mk(case.args[0] as T)),
-        "clear" => s.clear(),
+        "fill" => $s.fill(E::mk($case.args[0] as T)),
+        "clear" => $s.clear(),
         "fillwith" => {
             let mut calls = Vec::new();
-            s.fill_with(|pos, x| {
+            (&mut $s).fill_with(|pos, x| {
                 calls.push((pos.row, pos.col, x.id()));
                 E::mk(tf(pos.row, pos.col, x.id()))
             });
@@ -944,31 +998,172 @@ fn observe_mut<E: Elem>(mut s: DynMut<'_, E>, case: &Case) -> Obs {
             obs.calls = calls.into_iter().map(|(r, c, x)| (r, c, (x as usize).wrapping_sub(1))).collect();
         }
         "insert" | "insertwrap" | "inserthuge" => {
-            s.insert(Position::new(case.args[0], case.args[1]), case.items.iter().map(|&v| E::mk(v)));
+            (&mut $s).insert(pos_at($case.args[0], $case.args[1]), $case.items.iter().map(|&v| E::mk(v)));
         }
         "set" => {
-            let old = s.set(Position::new(case.args[0], case.args[1]), E::mk(4242));
+            let old = $s.set(pos_at($case.args[0], $case.args[1]), E::mk(4242));
             obs.mapped = vec![old.id()];
         }
         "map" => {
             let mut calls = Vec::new();
-            let m = s.map(|pos, x| {
+            let m = (&$s).map(|pos, x| {
                 calls.push((pos.row, pos.col, x as *const E, x.id()));
                 E::mk(tf(pos.row, pos.col, x.id()))
             });
             obs.calls = calls.into_iter().map(|(r, c, p, v)| (r, c, addr.off(p, v, &mut obs))).collect();
-            obs.mapped_size = (m.height(), m.width());
-            obs.mapped = ids(&m.to_vec());
+            read_mapped(&m, &mut obs);
         }
         "toowned" => {
-            let m = s.to_owned_surf();
-            obs.mapped_size = (m.height(), m.width());
-            obs.mapped = ids(&m.to_vec());
+            let m = $s.to_owned_surf();
+            read_mapped(&m, &mut obs);
         }
+        "hash" => obs.hashv = E::hash_of(&$s),
         other => panic!("unknown accessor {other}"),
     }
-    obs.canvas = ids(s.data());
+    obs.canvas = ids($s.data());
     obs
+}};
+}
+
+/// read a surface produced by map / to_owned_surf cell by cell through the raw fields of its shape
+fn read_mapped<E: Elem>(m: &SurfaceOwned<E>, obs: &mut Obs) {
+    let sh = m.shape();
+    obs.mapped_size = (sh.height, sh.width);
+    let data = m.data();
+    obs.mapped = Vec::new();
+    for r in 0..sh.height {
+        for c in 0..sh.width {
+            match data.get(sh.start + r * sh.row_stride + c * sh.col_stride) {
+                Some(x) => obs.mapped.push(x.id()),
+                None => obs.bad = Some(format!("cell ({r}, {c}) of a mapped surface lies outside of its data")),
+            }
+        }
+    }
+    if (m.height(), m.width()) != (sh.height, sh.width) {
+        obs.bad = Some("height()/width() of a mapped surface disagree with its shape()".to_string());
+    }
+}
+
+struct Sink<'c> {
+    case: &'c Case,
+    res: Option<Obs>,
+}
+
+// ---- end points: the last carrier, by type
+fn end_box_mut<'a, E: Elem>(mut s: DynMut<'a, E>, k: &mut Sink<'_>) {
+    let case = k.case;
+    k.res = Some(match case.end_kind % 3 {
+        0 => observe_mut_body!(s, case),
+        1 => {
+            // through the vtable: the implementor's own methods
+            let mut d: &mut dyn SurfaceMut<Item = E> = &mut *s;
+            observe_mut_body!(d, case)
+        }
+        _ => {
+            let mut r = &mut s;
+            observe_mut_body!(r, case)
+        }
+    });
+}
+fn end_ov_mut<'a, E: Elem, S: SurfaceMut<Item = E> + 'a>(mut s: SurfaceOwnedView<S>, k: &mut Sink<'_>) {
+    let case = k.case;
+    k.res = Some(observe_mut_body!(s, case));
+}
+fn end_mv<'a, E: Elem>(mut s: SurfaceMutView<'a, E>, k: &mut Sink<'_>) {
+    let case = k.case;
+    k.res = Some(observe_mut_body!(s, case));
+}
+fn end_owned_mut<E: Elem>(mut s: SurfaceOwned<E>, k: &mut Sink<'_>) {
+    let case = k.case;
+    k.res = Some(observe_mut_body!(s, case));
+}
+fn end_owned_borrowed_mut<E: Elem>(mut s: &mut SurfaceOwned<E>, k: &mut Sink<'_>) {
+    let case = k.case;
+    k.res = Some(observe_mut_body!(s, case));
+}
+fn end_box_ref<'a, E: Elem>(s: DynRef<'a, E>, k: &mut Sink<'_>) {
+    let case = k.case;
+    let s = if case.end_kind % 4 == 3 {
+        match E::image_end(s, case) {
+            Ok(obs) => {
+                k.res = Some(obs);
+                return;
+            }
+            Err(s) => s,
+        }
+    } else {
+        s
+    };
+    k.res = Some(match case.end_kind % 3 {
+        0 => observe_ref_body!(s, case),
+        1 => {
+            let d: &dyn Surface<Item = E> = &*s;
+            observe_ref_body!(d, case)
+        }
+        _ => {
+            let r = Arc::new(s);
+            observe_ref_body!(r, case)
+        }
+    });
+}
+fn end_ov_ref<'a, E: Elem, S: Surface<Item = E> + 'a>(s: SurfaceOwnedView<S>, k: &mut Sink<'_>) {
+    let case = k.case;
+    k.res = Some(observe_ref_body!(s, case));
+}
+fn end_rv<'a, E: Elem>(s: SurfaceView<'a, E>, k: &mut Sink<'_>) {
+    let case = k.case;
+    k.res = Some(observe_ref_body!(s, case));
+}
+fn end_owned_ref<E: Elem>(s: SurfaceOwned<E>, k: &mut Sink<'_>) {
+    let case = k.case;
+    k.res = Some(observe_ref_body!(s, case));
+}
+fn end_owned_borrowed_ref<E: Elem>(s: &SurfaceOwned<E>, k: &mut Sink<'_>) {
+    let case = k.case;
+    k.res = Some(observe_ref_body!(s, case));
+}
+
+
+
+
+
+/// RGBA cells: `Image` (src/image.rs) is a `Surface` implementor over them — `Image::new(view)`,
+/// `Image::from_parts`, `Image::crop` must denote the same windows as the views they are made from
+impl Elem for RGBA {
+    fn mk(id: T) -> Self {
+        let b = id.to_le_bytes();
+        RGBA::new(b[0], b[1], b[2], b[3])
+    }
+    fn id(&self) -> T {
+        T::from_le_bytes(self.to_rgba())
+    }
+    const BY_VALUE: bool = true;
+    fn image_end<'a>(s: DynRef<'a, Self>, case: &Case) -> Result<Obs, DynRef<'a, Self>> {
+        // every read-side accessor as a method call on the concrete `Image`
+        type E = RGBA;
+        let img = Image::new(s);
+        Ok(observe_ref_body!(img, case))
+    }
+    fn image_step<'a>(s: DynRef<'a, Self>, op: &Op, variant: u8) -> Result<DynRef<'a, Self>, DynRef<'a, Self>> {
+        Ok(match (*op, variant % 5) {
+            (Op::View(r, c), 0) => Box::new(Image::new(s).crop(r, c)),
+            (Op::View(r, c), 1) => Box::new(Image::new(s.view_owned(r, c))),
+            (Op::View(r, c), 2) => Box::new(Image::new(s).view_owned(r, c)),
+            (Op::View(r, c), 3) => {
+                let img = Image::new(s.view_owned(r, c));
+                Box::new(Image::from_parts(Arc::from(img.data()), img.shape()))
+            }
+            (Op::View(r, c), _) => Box::new(Image::new(Image::new(s).view(r, c))),
+            (Op::Transpose, 0) => Box::new(Image::new(s.transpose())),
+            (Op::Transpose, 1) => Box::new(Image::new(s).transpose()),
+            (Op::Transpose, 2) => Box::new(Image::new(Image::new(s).transpose())),
+            (Op::Transpose, 3) => {
+                let img = Image::new(s.transpose());
+                Box::new(Image::from_parts(Arc::from(img.data()), img.shape()).crop(.., ..))
+            }
+            (Op::Transpose, _) => Box::new(Arc::new(Image::new(s)).transpose()),
+        })
+    }
 }
 
 fn is_mut_acc(acc: &str) -> bool {
@@ -981,30 +1176,30 @@ fn run_impl_e<E: Elem>(case: &Case, mutable: bool) -> Result<Obs, ()> {
     let live0 = E::live();
     let r = guarded(|| {
         let mut root = new_root::<E>(case.h, case.w, case.extra);
-        let mut res: Option<Obs> = None;
+        let mut sink = Sink { case, res: None };
         if mutable {
             if case.root_kind == 0 {
-                start_mut_owned::<E>(root, &case.steps, &mut |s| res = Some(observe_mut(s, case)));
+                start_mut_owned::<E>(root, &case.steps, &mut sink);
             } else {
-                let r = guarded(|| start_mut_borrowed::<E>(&mut root, &case.steps, &mut |s| res = Some(observe_mut(s, case))));
+                let r = guarded(|| start_mut_borrowed::<E>(&mut root, &case.steps, &mut sink));
                 // the parent itself is the authority on what was changed
                 let canvas = ids(root.data());
-                match (r, res.as_mut()) {
+                match (r, sink.res.as_mut()) {
                     (Ok(()), Some(obs)) => {
                         if canvas != obs.canvas {
                             obs.bad = Some("data() of the view differs from the parent's cells".to_string());
                         }
                         obs.canvas = canvas;
                     }
-                    _ => res = Some(Obs { panicked: true, canvas, ..Obs::default() }),
+                    _ => sink.res = Some(Obs { panicked: true, canvas, ..Obs::default() }),
                 }
             }
         } else if case.root_kind == 0 {
-            start_ref_owned::<E>(root, &case.steps, &mut |s| res = Some(observe_ref(s, case)));
+            start_ref_owned::<E>(root, &case.steps, &mut sink);
         } else {
-            start_ref_borrowed::<E>(&root, &case.steps, &mut |s| res = Some(observe_ref(s, case)));
+            start_ref_borrowed::<E>(&root, &case.steps, &mut sink);
         }
-        let mut obs = res.expect("continuation was not called");
+        let mut obs = sink.res.expect("continuation was not called");
         obs.canvas_skip = E::BY_VALUE && !mutable;
         obs
     });
@@ -1017,8 +1212,51 @@ fn run_impl_e<E: Elem>(case: &Case, mutable: bool) -> Result<Obs, ()> {
     })
 }
 
+/// terminal cells; the root is the crate's third Surface implementor, `Offscreen::surf()` / `surf_mut()`
+/// (src/view/offscreen.rs), allocated by `draw_view` and filled through the raw `data_mut()` slice
+impl Elem for TCell {
+    fn mk(id: T) -> Self {
+        TCell::new_char(Face::default(), char::from_u32(0xE000 + id % 1_000_000).unwrap_or('?'))
+    }
+    fn id(&self) -> T {
+        match self.kind() {
+            // `Default::default()` (a blank) is the value 0
+            CellKind::Char(' ') => 0,
+            CellKind::Char(c) => (*c as u32).wrapping_sub(0xE000),
+            _ => T::MAX,
+        }
+    }
+}
+
+fn run_offscreen(case: &Case, mutable: bool) -> Result<Obs, ()> {
+    guarded(|| {
+        let off = Offscreen::new();
+        off.draw_view(&ViewContext::dummy(), BoxConstraint::tight(size_of_hw(case.h, case.w)), ()).expect("draw_view");
+        {
+            let mut s = off.surf_mut();
+            for (i, c) in s.data_mut().iter_mut().enumerate() {
+                *c = TCell::mk((i + 1) as T);
+            }
+        }
+        let mut sink = Sink { case, res: None };
+        if mutable {
+            chain_mut::<TCell>(Box::new(off.surf_mut()), &case.steps, &mut sink);
+        } else {
+            chain_ref::<TCell>(Box::new(off.surf()), &case.steps, &mut sink);
+        }
+        let mut obs = sink.res.expect("continuation was not called");
+        let canvas = ids(off.surf().data());
+        if canvas != obs.canvas {
+            obs.bad = Some("data() of the view differs from the offscreen surface's cells".to_string());
+        }
+        obs.canvas = canvas;
+        obs
+    })
+}
+
 fn run_impl(case: &Case, mutable: bool) -> Result<Obs, ()> {
     match case.elem {
+        CELL_ELEM => run_offscreen(case, mutable),
         0 => run_impl_e::<u32>(case, mutable),
         1 => run_impl_e::<Odd5>(case, mutable),
         4 => run_impl_e::<RGBA>(case, mutable),
@@ -1254,6 +1492,16 @@ fn judge(case: &Case, win: &Mat, obs: &Result<Obs, ()>) -> Option<(String, Value
                 }
             }
         }
+        "hash" => {
+            // the view must hash like the plain matrix it denotes (same extents, same cells in row-major
+            // order); which hash function that is, is not part of the property
+            let (eh, ew) = if win.is_empty() { (obs.height, obs.width) } else { (hs, ws) };
+            let plain = SurfaceOwned::<u32>::new_with(size_of_hw(eh, ew), |p| init[win[p.row][p.col]]);
+            let exp = plain.hash();
+            if obs.hashv != Some(exp) {
+                return bad("hash of the view differs from the hash of the plain matrix holding the window", json!(exp), json!(obs.hashv));
+            }
+        }
         "fill" => flat.iter().for_each(|&id| canvas[id] = case.args[0] as T),
         "clear" => flat.iter().for_each(|&id| canvas[id] = 0),
         "fillwith" => {
@@ -1460,8 +1708,27 @@ fn corner_chains() -> Vec<(usize, usize, Vec<Op>)> {
     ]
 }
 
+/// type-erased chain with a closure at the end (zero-sized cells only)
+fn chain_erased_mut<'a, E: Elem>(mut s: DynMut<'a, E>, steps: &[Step], k: &mut dyn for<'b> FnMut(DynMut<'b, E>)) {
+    let Some((step, rest)) = steps.split_first() else {
+        return k(s);
+    };
+    match step.op {
+        Op::View(r, c) => match step.kind % 3 {
+            0 => chain_erased_mut(Box::new(s.view_owned(r, c)), rest, k),
+            1 => chain_erased_mut(Box::new(s.view_mut(r, c)), rest, k),
+            _ => chain_erased_mut(Box::new((&mut s).view_owned(r, c)), rest, k),
+        },
+        Op::Transpose => match step.kind % 2 {
+            0 => chain_erased_mut(Box::new(s.transpose()), rest, k),
+            _ => chain_erased_mut(Box::new((&mut s).transpose()), rest, k),
+        },
+    }
+}
+
 const ZST: u8 = 3;
 const RGBA_ELEM: u8 = 4;
+const CELL_ELEM: u8 = 5;
 impl Elem for () {
     fn mk(_: T) -> Self {}
     fn id(&self) -> T {
@@ -1477,8 +1744,8 @@ fn zst_check(case: &Case, win: &Mat) -> Option<(String, Value, Value)> {
     let pos: Vec<(usize, usize)> = (0..hs).flat_map(|r| (0..ws).map(move |c| (r, c))).collect();
     let mut verdict: Option<(String, Value, Value)> = None;
     let r = guarded(|| {
-        let root = SurfaceOwned::<()>::new(Size::new(case.h, case.w));
-        chain_mut::<()>(Box::new(root), &case.steps, &mut |mut s| {
+        let root = SurfaceOwned::<()>::new(size_of_hw(case.h, case.w));
+        chain_erased_mut::<()>(Box::new(root), &case.steps, &mut |mut s| {
             let mut bad = |what: &str, e: Value, g: Value| {
                 if verdict.is_none() {
                     verdict = Some((format!("zero-sized cells: {what}"), e, g));
@@ -1491,13 +1758,13 @@ fn zst_check(case: &Case, win: &Mat) -> Option<(String, Value, Value)> {
             for r in 0..h + 2 {
                 for c in 0..w + 2 {
                     let inside = r < hs && c < ws;
-                    if s.get(Position::new(r, c)).is_some() != inside || s.get_mut(Position::new(r, c)).is_some() != inside {
+                    if s.get(pos_at(r, c)).is_some() != inside || s.get_mut(pos_at(r, c)).is_some() != inside {
                         bad("get/get_mut presence differs from the window", json!(inside), json!([r, c]));
                     }
                 }
             }
             for (r, c) in [(usize::MAX, 0), (0, usize::MAX), (usize::MAX, usize::MAX), (1usize << 63, 1), ((usize::MAX / w.max(1)).saturating_add(1), 0)] {
-                if s.get(Position::new(r, c)).is_some() || s.get_mut(Position::new(r, c)).is_some() {
+                if s.get(pos_at(r, c)).is_some() || s.get_mut(pos_at(r, c)).is_some() {
                     bad("get/get_mut at a far position is not absent", json!("None"), json!([r, c]));
                 }
             }
@@ -1530,15 +1797,15 @@ fn zst_check(case: &Case, win: &Mat) -> Option<(String, Value, Value)> {
             }
             s.fill(());
             s.clear();
-            s.insert(Position::new(hs / 2, 0), std::iter::repeat_n((), cells + 2));
+            s.insert(pos_at(hs / 2, 0), std::iter::repeat_n((), cells + 2));
             if s.data().len() != case.h * case.w {
                 bad("the parent changed its length", json!(case.h * case.w), json!(s.data().len()));
             }
-            let outside = guarded(|| s.set(Position::new(hs, 0), ())).is_err();
+            let outside = guarded(|| s.set(pos_at(hs, 0), ())).is_err();
             if !outside {
                 bad("set below the window is not refused", json!("panic"), json!("returned"));
             }
-            if cells > 0 && guarded(|| s.set(Position::new(hs - 1, ws - 1), ())).is_err() {
+            if cells > 0 && guarded(|| s.set(pos_at(hs - 1, ws - 1), ())).is_err() {
                 bad("set inside the window panics", json!("no panic"), json!("panic"));
             }
         });
@@ -1570,8 +1837,29 @@ fn far_coord(rng: &mut Rng, dims: &[usize]) -> usize {
     }
 }
 
+/// FNV-1a (64 bit) over what `Surface::hash` feeds its hasher: height and width as usize, then the cells —
+/// written here independently; a disagreement with the crate's hash is recorded in the evidence, it is not a
+/// C07 failure (the property does not fix the hash function)
+fn fnv1a_window(h: usize, w: usize, cells: &[u32]) -> u64 {
+    let mut x: u64 = 0xcbf29ce484222325;
+    let mut feed = |bytes: &[u8]| {
+        for b in bytes {
+            x ^= *b as u64;
+            x = x.wrapping_mul(0x100000001b3);
+        }
+    };
+    feed(&h.to_ne_bytes());
+    feed(&w.to_ne_bytes());
+    for c in cells {
+        feed(&c.to_ne_bytes());
+    }
+    x
+}
+
 struct Ctx {
     out: Out,
+    hash_agree: u64,
+    hash_differ: u64,
     /// name of the build profile the cases run in ("debug" in the main run)
     profile: &'static str,
 }
@@ -1604,8 +1892,14 @@ impl Ctx {
         self.out.case(&format!("{req} {ans}"), nontrivial);
         self.out.hist(&format!("acc:{}", case.acc));
         self.out.hist(&format!("elem:{}", ELEMS[case.elem as usize]));
-        if !matches!(case.acc.as_str(), "insertwrap" | "inserthuge" | "toowned") && case.elem != RGBA_ELEM {
+        if !matches!(case.acc.as_str(), "insertwrap" | "inserthuge" | "toowned" | "hash") && case.elem != RGBA_ELEM {
             self.out.corr(&req, &ans);
+        }
+        if case.acc == "hash" {
+            if let Ok(Obs { hashv: Some(hv), height, width, panicked: false, .. }) = &obs {
+                let cells: Vec<u32> = win.iter().flatten().map(|&id| (id + 1) as u32).collect();
+                if *hv == fnv1a_window(*height, *width, &cells) { self.hash_agree += 1 } else { self.hash_differ += 1 }
+            }
         }
         if let Some((what, exp, got)) = judge(&case, &win, &obs) {
             let mut input = case.to_json();
@@ -1634,7 +1928,7 @@ impl Ctx {
 
     /// all accessors for one chain; every accessor runs on a fresh root with its own carrier mix
     fn chain(&mut self, rng: &mut Rng, h: usize, w: usize, extra: usize, elem: u8, ops: &[Op]) {
-        let proto = Case { h, w, extra, elem, steps: ops.iter().map(|&op| Step { op, kind: 0 }).collect(), root_kind: 0, acc: String::new(), args: vec![], items: vec![] };
+        let proto = Case { h, w, extra, elem, steps: ops.iter().map(|&op| Step { op, kind: 0 }).collect(), root_kind: 0, end_kind: 0, acc: String::new(), args: vec![], items: vec![] };
         let win = spec_window(&proto);
         let (hs, ws) = if win.is_empty() { (0, 0) } else { (win.len(), win[0].len()) };
         let cells = hs * ws;
@@ -1645,7 +1939,7 @@ impl Ctx {
         self.out.hist(if extra > 0 { "root:from_vec" } else { "root:new_with" });
         const MAX: usize = usize::MAX;
         let accs = [
-            "grid", "grid+", "gridmut", "probe", "probe+", "probemut", "posnth", "posnth+", "posnthmut", "posadapt", "posadaptmut", "iter", "iter+", "itermut", "nth", "nth+", "nthmut", "nthmut!", "nth!", "fill", "clear", "fillwith",
+            "grid", "grid+", "gridmut", "probe", "probe+", "probemut", "posnth", "posnth+", "posnthmut", "posadapt", "posadaptmut", "hash", "hash+", "iter", "iter+", "itermut", "nth", "nth+", "nthmut", "nthmut!", "nth!", "fill", "clear", "fillwith",
             "insert", "insert!", "inserthuge", "insertwrap", "map", "map+", "toowned", "set", "set!",
         ];
         for acc in accs.iter() {
@@ -1659,7 +1953,11 @@ impl Ctx {
                 },
             };
             let root_kind = rng.below(2) as u8 + if flag == '+' || (name == "toowned" && rng.chance(1, 2)) { 2 } else { 0 };
-            let mut case = Case { steps, root_kind, acc: name.to_string(), ..proto.clone() };
+            // a panic while the offscreen lock is held poisons it: the parent could not be inspected afterwards
+            if elem == CELL_ELEM && (name == "inserthuge" || (name == "insert" && flag == '!') || (name == "set" && (flag == '!' || cells == 0))) {
+                continue;
+            }
+            let mut case = Case { steps, root_kind, end_kind: rng.below(12) as u8, acc: name.to_string(), ..proto.clone() };
             match name {
                 "nth" | "nthmut" if flag == '!' => {
                     // saturation of the iterator index: nothing may be yielded twice or after usize::MAX
@@ -1734,6 +2032,7 @@ impl Ctx {
                     let n = rng.below(cells as u64 + 4) as usize;
                     case.items = (0..n).map(|j| 9000 + j as T).collect();
                 }
+                "hash" if elem != 0 => continue,
                 "posnth" | "posnthmut" => {
                     // next / nth mixes on the position iterator (nth is executed as that many `next`)
                     let calls = 2 + rng.below(5) as usize;
@@ -1860,6 +2159,11 @@ fn release_child(cfg: &Cfg, out: &mut Out, replay: bool) -> Value {
         .args(["build", "--release", "--offline", "-q", "--bin", "c07"])
         .current_dir(manifest)
         .env("CARGO_TARGET_DIR", &target)
+        // what matters is the profile's semantics (no overflow checks, no debug assertions), not its speed
+        .env("CARGO_PROFILE_RELEASE_OPT_LEVEL", "1")
+        .env("CARGO_PROFILE_RELEASE_CODEGEN_UNITS", "64")
+        .env("CARGO_PROFILE_RELEASE_DEBUG_ASSERTIONS", "false")
+        .env("CARGO_PROFILE_RELEASE_OVERFLOW_CHECKS", "false")
         .output();
     match build {
         Ok(o) if o.status.success() => {}
@@ -1899,7 +2203,7 @@ fn main() {
         verif_harness::silence_panics();
     }
     let child = std::env::var("VERIF_RELEASE_CHILD").is_ok();
-    let mut ctx = Ctx { out, profile: if child { "release" } else { "debug" } };
+    let mut ctx = Ctx { out, hash_agree: 0, hash_differ: 0, profile: if child { "release" } else { "debug" } };
     if let Some(replay) = &cfg.replay {
         let input = &replay["failure"]["input"];
         if input["profile"].as_str() == Some("release") && !child {
@@ -1940,11 +2244,13 @@ fn main() {
         };
         let extra = if rng.chance(1, 5) { 1 + rng.below(3) as usize } else { 0 };
         // RGBA cells bring `Image` in as a carrier of the read-side accessors
-        let elem = if rng.chance(1, if cfg.thorough { 3 } else { 4 }) { *rng.pick(&[1u8, 2, RGBA_ELEM, RGBA_ELEM]) } else { 0 };
+        let elem = if rng.chance(1, if cfg.thorough { 3 } else { 4 }) { *rng.pick(&[1u8, 2, RGBA_ELEM, RGBA_ELEM, CELL_ELEM]) } else { 0 };
+        // the offscreen root is exactly h x w cells
+        let extra = if elem == CELL_ELEM { 0 } else { extra };
         let steps = gen_chain(&mut rng, h, w, 5);
         let ops: Vec<Op> = steps.iter().map(|s| s.op).collect();
         if i % 997 == 0 {
-            let c = Case { h, w, extra, elem, steps: steps.clone(), root_kind: 0, acc: "grid".into(), args: vec![], items: vec![] };
+            let c = Case { h, w, extra, elem, steps: steps.clone(), root_kind: 0, end_kind: 0, acc: "grid".into(), args: vec![], items: vec![] };
             ctx.out.sample(json!({"h": h, "w": w, "extra": extra, "elem": ELEMS[elem as usize], "chain": c.chain_token(), "window": spec_window(&c)}));
         }
         ctx.chain(&mut rng, h, w, extra, elem, &ops);
@@ -1956,10 +2262,11 @@ fn main() {
         let w = rng.below(7) as usize;
         let steps = gen_chain(&mut rng, h, w, 4);
         let args = vec![rng.below(3) as usize, rng.below(4) as usize, if rng.chance(1, 3) { usize::MAX } else { 0 }, 0];
-        ctx.eval(&Case { h, w, extra: 0, elem: ZST, steps, root_kind: 0, acc: "zst".into(), args, items: vec![] });
+        ctx.eval(&Case { h, w, extra: 0, elem: ZST, steps, root_kind: 0, end_kind: 0, acc: "zst".into(), args, items: vec![] });
     }
     ctx.out.extra("element_types", json!({"u32": 4, "odd5": std::mem::size_of::<Odd5>(), "counted": std::mem::size_of::<Counted>(), "zst": 0}));
     ctx.out.extra("profile", json!(ctx.profile));
+    ctx.out.extra("surface_hash_vs_independent_fnv1a", json!({"agree": ctx.hash_agree, "differ": ctx.hash_differ}));
     if !under_miri && !child {
         // both tiers: the release build is cached, the run takes half a second
         let r = release_child(&cfg, &mut ctx.out, false);
